@@ -23,7 +23,7 @@ from .oracles import V
 
 SOUP_POOL = [
     u"Feature: soup", u"Funktionalität: suppe", u"Fonctionnalité: soupe", u"# language: de", u"# language: fr",
-    u"# language: en", u"# language: zz", u"# language: {zz}", u"@t {x} %s", u"#language:de", u"Rule: r", u"Regel: r", u"Background:", u"Grundlage: g",
+    u"# language: en", u"# language: zz", u"# language:", u"# language: {zz}", u"@t {x} %s", u"#language:de", u"Rule: r", u"Regel: r", u"Background:", u"Grundlage: g",
     u"Scenario: s", u"Szenario: s", u"Scénario: s", u"Scenario Outline: o <a>", u"Szenariogrundriss: o",
     u"Examples: e", u"Beispiele: b", u"Scenarios:", u"Example: x", u"Given a step", u"When b", u"Then c",
     u"And d", u"But e", u"* f", u"Angenommen x", u"Wenn y", u"Dann z", u"Und u", u"Aber a",
@@ -45,6 +45,18 @@ def doc_from_seed(rng):
     if rng.random() < 0.2:
         text = u"# language: en\n" + text
         lm = {k: v + 1 for k, v in lm.items()}
+    if rng.random() < 0.25:
+        # behave ends a doc-string at a line that STARTS with the quotes: text behind them is ignored
+        out_ = []
+        opened = False
+        for ln in text.split("\n"):
+            st_ = ln.strip()
+            if st_ in (u'"""', u"'''"):
+                if opened:
+                    ln = ln + u" end of text"
+                opened = not opened
+            out_.append(ln)
+        text = u"\n".join(out_)
     return feat, text, lm
 
 
@@ -67,6 +79,10 @@ def enumerate_faults(feat, text, lm, rng):
         yield ("torn-after", k, "\n".join(lines[:k]) + ("\n" if k and rng.random() < 0.5 else ""), None)
     for k in range(n):
         L = lines[k]
+        if L.startswith(u"# language:"):
+            # a language header torn right behind the colon (with and without the blank)
+            for torn in (u"# language:", u"# language: "):
+                yield ("torn-language-header", k + 1, join(lines[:k] + [torn] + lines[k + 1:]), None)
         for c in sorted(set([1, len(L) // 2, max(1, len(L) - 1)])):
             if 0 < c < len(L):
                 yield ("torn-inside", k + 1, "\n".join(lines[:k] + [L[:c]]), None)
